@@ -9,16 +9,21 @@ python3-vt - <<'PY'
 import sys, subprocess, os
 sys.path.insert(0, '/verif')
 from vlib import mirdump, replay
-for c in ('zdd', 'core', 'runtime', 'parser', 'cluster'):
+for c in ('zdd', 'core', 'runtime', 'parser', 'cluster', 'cli'):
     try:
         p, info = mirdump.dump(c); print('MIR', c, info, flush=True)
     except Exception as e:
         print('MIR dump failed for', c, e, flush=True)
+HOOKED = {'api': '--cfg varpulis_verif'}      # built only with the cfg(varpulis_verif) hooks; rt is built both ways
 for r in sorted(os.listdir('/verif/replay')):
     try:
-        print('replay helper', replay.build(r), flush=True)
+        print('replay helper', replay.build(r, rustflags=HOOKED.get(r)), flush=True)
     except Exception as e:
         print('replay build failed', r, e, flush=True)
+try:
+    print('replay helper', replay.build('rt', rustflags='--cfg varpulis_verif'), flush=True)
+except Exception as e:
+    print('replay build failed rt (hooks)', e, flush=True)
 PY
 for k in kani/*/; do
   k=$(basename "$k")
